@@ -223,6 +223,14 @@ def main(pid, tier, seed, replay=None):
                 vio.pop("value_kinds"), vio.pop("n_values"), vio.pop("k")
             run.violation(vio, {k2: c[k2] for k2 in ("tid", "k", "k1", "vals") if k2 in c})
     e2e = None
+    if pid == "C05" and not replay:
+        # end to end: real tracing -> store -> stub without a rewriter; every alternative of an annotation is witnessed by a
+        # value really seen at that position (a trace credited to the wrong call, a stale type, ... is not a property of get_type)
+        from . import replay_pipeline
+        precs, pcases, pplan, _, pstates, ptrans, pwall = replay_pipeline.run_pipeline("C05", tier, seed, run)
+        e2e = {"plan": pplan, "runs": len(precs), "tlc_states": pstates, "positions_checked": sum(len(r["positions"]) for r in precs)}
+        states += pstates
+        trans += ptrans
     if pid == "C06" and not replay:
         # stages (ii) and (iii): the rows of a real store and the TypedDict classes of the real stub
         from . import replay_pipeline
